@@ -477,11 +477,11 @@ func init() {
 			ThoroughTime: 10 * time.Minute,
 			Exhaustive:   false,
 			Components: map[string]string{
-				"editor, Selection, Browser (node/*)":                        "real",
+				"editor, Selection, Browser (node/*)": "real",
 				"stores rmap/nmap/nstruct/rstruct/nacc (nodeutil.Reflect, .Node; optionally with pass-through hooks)": "real",
-				"JSON/XML readers as sources, JSONWtr/XMLWtr as targets":     "real",
-				"control store / model-backed source (mnode)":                "harness",
-				"recording fault-injecting node wrapper (simnode)":           "harness",
+				"JSON/XML readers as sources, JSONWtr/XMLWtr as targets":                                              "real",
+				"control store / model-backed source (mnode)":                                                         "harness",
+				"recording fault-injecting node wrapper (simnode)":                                                    "harness",
 			},
 		}
 		c.Run = func(i int, seed uint64, tier string) RunOut {
